@@ -18,6 +18,11 @@ func init() {
 		&slip.FuncDoc{
 			Name: "-",
 			Args: []*slip.DocArg{
+				{
+					Name: "number",
+					Type: "number",
+					Text: "The number to negate or to subtract the _numbers_ from.",
+				},
 				{Name: "&rest"},
 				{
 					Name: "numbers",
